@@ -29,9 +29,10 @@ const (
 	KClose
 	KSpawn
 	KStart
+	KAtomic
 )
 
-var kindNames = [...]string{"yield", "lock", "unlock", "wg.wait", "wg.done", "send", "recv", "close", "spawn", "start"}
+var kindNames = [...]string{"yield", "lock", "unlock", "wg.wait", "wg.done", "send", "recv", "close", "spawn", "start", "atomic"}
 
 func (k Kind) String() string { return kindNames[k] }
 
@@ -535,6 +536,18 @@ func Unsupported(what string) {
 	if active {
 		unsupported = what
 	}
+}
+
+// Atomic0 / Atomic1 wrap a sync/atomic operation: the thread parks first (a check-then-act over two
+// atomics is only wrong when another thread runs in between), then the real operation executes.
+func Atomic0(f func()) {
+	Point(KAtomic, nil)
+	f()
+}
+
+func Atomic1[T any](f func() T) T {
+	Point(KAtomic, nil)
+	return f()
 }
 
 func Go0(f func())                                    { Go(f) }
